@@ -439,6 +439,28 @@ for pid, (quick, thorough) in {
 }.items():
     PROPS[pid]["random"] = {"quick": quick, "thorough": thorough}
 
+
+def URC(tasks=3, max_size=3, preload=0, nobjs=5, has_runtime=True, **kw):
+    d = {"cfg": {"tasks": ["t%d" % (i + 1) for i in range(tasks)], "max_size": max_size, "preload": preload, "nobjs": nobjs, "has_runtime": has_runtime},
+         "modes": ["try", "bl", "timed"], "allow_close": False, "allow_take": True, "allow_remove": True, "allow_add": True,
+         "allow_cancel": True, "allow_drop_pool": False, "ops": 30}
+    d.update(kw)
+    return d
+
+
+UR_PLAIN = URC()
+UR_FROM = URC(tasks=3, max_size=3, preload=3, nobjs=5, has_runtime=False)  # (a pool built From an iterator has no runtime)
+UR_CLOSE = URC(tasks=4, max_size=2, nobjs=4, allow_close=True, allow_drop_pool=True)
+UR_NORT = URC(tasks=2, max_size=2, preload=2, nobjs=3, has_runtime=False)
+for pid, (quick, thorough) in {
+    "C05": ([("uplain", UR_PLAIN, 150, 300, "unmanaged"), ("ufrom", UR_FROM, 100, 300, "unmanaged")],
+            [("uplain", UR_PLAIN, 4000, 600, "unmanaged"), ("ufrom", UR_FROM, 3000, 600, "unmanaged")]),
+    "C12": ([("uclose", UR_CLOSE, 200, 300, "unmanaged")], [("uclose", UR_CLOSE, 6000, 600, "unmanaged")]),
+}.items():
+    PROPS[pid]["random"] = {"quick": quick, "thorough": thorough}
+for tier, n in (("quick", 100), ("thorough", 3000)):
+    PROPS["C10"]["random"][tier] = list(PROPS["C10"]["random"][tier]) + [("unort", UR_NORT, n, 200, "unmanaged"), ("uclose", UR_CLOSE, n, 300, "unmanaged")]
+
 REFINE = C(Tasks=["t1", "t2"], InitMax=2, MaxObjs=3, Budget=4, NPost=1, AsyncPost=[1], AllowTake=True, AllowPanic=True)
 for pid in ("C01", "C02"):
     PROPS[pid]["extra"] = {"thorough": ["counting"], "quick": [], "refine_consts": REFINE}
